@@ -61,6 +61,7 @@ package mutagen
 //@   ensures[same] result1 == nil ==> len(unboxptr(result0, "ignorer").patterns) == len(patterns)
 //@   ensures[same] result1 == nil ==> forall j in 0..len(patterns) :: (unboxptr(result0, "ignorer").patterns[j].negated <==> patterns[j][0] == '!')
 //@   loop 1 invariant rangeindex < len(patterns) && len(ignorePatterns) == len(patterns) && base(ignorePatterns) != base(patterns)
+//@   loop 1 invariant[count] negatedPatternCount <= rangeindex + 1
 //@   loop 1 invariant[count] negatedPatternCount == cin(patterns, rangeindex + 1)
 //@   loop 1 invariant[elems] forall j in 0..rangeindex+1 :: ignorePatterns[j] != nil && len(patterns[j]) > 0 && (ignorePatterns[j].negated <==> patterns[j][0] == '!')
 
